@@ -300,7 +300,8 @@ def step_src(step):
                 return f"EXT hass.states.async_set({ename(x[1])!r}, {T.value_of(x[2])!r}, {dict((T.IDENT[k], T.value_of(v)) for k, v in x[3])!r})"
             return {"rm": "EXT hass.states.async_remove", "reg": "EXT hass.services.async_register", "unreg": "EXT hass.services.async_remove"}[x[0]] + f"({ename(x[1])!r})"
         pre = "; ".join(f"{T.IDENT[i]} = obj({', '.join(f'{T.IDENT[k]}={T.value_of(v)!r}' for k, v in a)})" for i, a in step.get("loc", []))
-        return (pre + "; " if pre else "") + "; ".join(gen_core(step["op"])[0])
+        tag = f"[same body g{step['grp']}, nested {step.get('nest')}] " if step.get("grp") is not None else ""
+        return tag + (pre + "; " if pre else "") + "; ".join(gen_core(step["op"])[0])
     except Exception as exc:  # pylint: disable=broad-except
         return f"<{exc}>"
 
@@ -520,6 +521,41 @@ class StateVarStream(Stream):
             blk += reads()
         return blk
 
+    def _nest_block(self, rng, live, slots_used, gid):
+        """several operations on the SAME dotted names in ONE function body that also contains a nested def / class /
+        lambda / comprehension (or runs inside a nested function): assign then read, read then assign, attribute assign,
+        del - the shapes where eval.py's static name analysis (local names, closures) meets state names"""
+        e = list(rng.choice([(1, 10), (1, 11), (1, 12), (1, 14), (2, 10), (4, 15)]))
+        k = rng.choice([20, 21, 22])
+        nest = rng.choice(["def", "def", "class", "lambda", "comp", "inner", "inner"])
+        j = rng.choice(T.SLOTS)
+        menu = [
+            lambda: S(["asg", e, ["lit", self._val(rng)]]),
+            lambda: S(["rd", e, rng.choice([None, j])]),
+            lambda: S(["rd", e + [k], None]),
+            lambda: S(["asg", e + [k], ["lit", self._val(rng)]]),
+            lambda: S(["rd", e + [rng.choice([100, 101, 102, 103])], None]),
+            lambda: S(["del", e + [k]]),
+            lambda: S(["del", e]),
+            lambda: S(["get", e, None]),
+            lambda: S(["exist", e + [k]]),
+            lambda: S(["set", e, ["lit", self._val(rng)], None, [[k, self._val(rng)]], False]),
+            lambda: S(["rslot", j]),
+        ]
+        weights = [5, 5, 4, 4, 2, 2, 1, 1, 1, 2, 1]
+        ops = [rng.choices(menu, weights)[0]() for _ in range(rng.randint(3, 7))]
+        if not any(o["op"][0] == "asg" for o in ops):
+            ops.insert(rng.randrange(len(ops) + 1), menu[0]())
+        if not any(o["op"][0] == "rd" and len(o["op"][1]) == 2 for o in ops):
+            ops.insert(rng.randrange(len(ops) + 1), S(["rd", e, None]))
+        for o in ops:
+            o["grp"], o["nest"] = gid, nest
+            if o["op"][0] == "rd" and o["op"][2] is not None:
+                slots_used.add(j)
+        if e[0] != T.FUNC_NAME[0]:
+            live.add(tuple(e))
+        return ops
+
     def _case(self, rng):
         live = set()
         slots_used = set()
@@ -534,6 +570,8 @@ class StateVarStream(Stream):
             r = rng.random()
             if r < 0.05:
                 steps += self._time_block(rng, live, slots_used)
+            elif r < 0.10:
+                steps += self._nest_block(rng, live, slots_used, len(steps))
             elif r < 0.08 and any(s["t"] == "x" and s["x"][0] == "set" for s in steps):
                 steps.append(rng.choice([s for s in steps if s["t"] == "x" and s["x"][0] == "set"]))   # identical re-report
             elif r < 0.16:
@@ -638,6 +676,19 @@ def _fixed_cases():
              + [X("set", e0, on, [])] + reads() + [S(["asg", e1, ["slot", 2]])] + [S(["rd", e1 + [103], None]), S(["rslota", 2, 103])])
     for mode in ("func", "live"):
         cases.append({"mode": mode, "legacy": mode == "live", "gobj": [[10, on]], "steps": times})
+    # several operations on the same dotted names in one function body containing a nested def/class/lambda/comprehension
+    def grp(gid, nest, ops):
+        return [dict(S(o), grp=gid, nest=nest) for o in ops]
+    for legacy in (False, True):
+        for mode in ("func", "live"):
+            steps = [X("set", e0, on, [[20, one]])]
+            for nest in ("def", "class", "lambda", "comp", "inner"):
+                steps += grp(len(steps), nest, [["asg", e0, ["lit", off]], ["rd", e0, 0], ["rd", e0 + [20], None],
+                                                ["asg", e0 + [20], ["lit", true]], ["rd", e0 + [20], None], ["rd", e0 + [101], None]])
+                steps += grp(len(steps), nest, [["rd", e1, None], ["asg", e1, ["lit", on]], ["rd", e1, 1], ["asg", e1 + [21], ["lit", lst]],
+                                                ["del", e1 + [21]], ["rd", e1 + [21], None], ["del", e1], ["rd", e1, None], ["rslot", 1]])
+                steps.append(X("set", e0, on, [[20, one]]))
+            cases.append({"mode": mode, "legacy": legacy, "gobj": [[10, on]], "steps": steps})
     return cases
 
 
